@@ -186,8 +186,8 @@ func runC18(c *Ctx) {
 		}
 		r.Check("R18.2", FuncName(update), "the default width is LongestLineCells of the cell's text", update.Pos(), found, "")
 		c18WidthStores(c, "R18.2")
-		c18MetricsAssigned(c, update, width, height)
-		c18HeightShape(c, update, lines, str, height)
+		dropsTrailing := c18HeightShape(c, update, lines, str, height)
+		c18MetricsAssigned(c, update, width, height, dropsTrailing)
 	}
 	checkEmitWidth(c, "R18.2")
 	// the emit pass prints, for every cell, exactly the lines the layout pass measured (C04's slot wiring)
@@ -326,7 +326,7 @@ func isFullRangeIndex(c *Ctx, fn *ssa.Function, idx ssa.Value, sl ssa.Value) boo
 }
 
 // c18HeightShape: shape rule comparing the height formula of Cell.Update with the line count of length.Lines.
-func c18HeightShape(c *Ctx, update, lines *ssa.Function, str, height interface{}) {
+func c18HeightShape(c *Ctx, update, lines *ssa.Function, str, height interface{}) (dropsTrailing bool) {
 	r := c.R
 	// Lines: separator and whether exactly one trailing empty segment is dropped
 	lsep, ldrop := "", false
@@ -386,6 +386,7 @@ func c18HeightShape(c *Ctx, update, lines *ssa.Function, str, height interface{}
 			}
 		})
 	}
+	dropsTrailing = ldrop && !ldropUnknown
 	switch {
 	case usesLines && !hasCount:
 		r.Check("R18.2", FuncName(update), "height is derived from length.Lines itself", update.Pos(), true, "")
@@ -400,6 +401,7 @@ func c18HeightShape(c *Ctx, update, lines *ssa.Function, str, height interface{}
 	default:
 		r.Note("shape-unrecognised R18.2: the height computation in Cell.Update is neither len(Lines(..)) nor 1+Count(..); agreement not evaluated")
 	}
+	return dropsTrailing
 }
 
 // checkEmitWidth: every construction of WidthString.W is StringCells of the same text (or 0, or the declared
@@ -777,7 +779,7 @@ func sameMeasure(call *ssa.Call, m *ssa.Function) bool {
 // metrics never outlive the text they were measured from (a cell is re-Updated when its item changes). Paths are
 // enumerated with boolean flags evaluated where they are phis of constants (the "text is empty" flag idiom) and
 // repeated tests of one condition value decided consistently.
-func c18MetricsAssigned(c *Ctx, update *ssa.Function, width, height *types.Var) {
+func c18MetricsAssigned(c *Ctx, update *ssa.Function, width, height *types.Var, linesDropsTrailing bool) {
 	r := c.R
 	strF := c.FieldOpt(c.Named("", "Cell"), "str")
 	unit := updateUnitOf(c, update)
@@ -806,6 +808,41 @@ func c18MetricsAssigned(c *Ctx, update *ssa.Function, width, height *types.Var) 
 		}
 		if f == height {
 			b[1] = 'y'
+			// how: by the count formula (1 + Count(text, sep) ...), by an adjustment of what is there, or otherwise
+			fromCount, fromSelf := false, false
+			seen := map[ssa.Value]bool{}
+			var look func(v ssa.Value, d int)
+			look = func(v ssa.Value, d int) {
+				if v == nil || seen[v] || d > 8 {
+					return
+				}
+				seen[v] = true
+				switch y := v.(type) {
+				case *ssa.BinOp:
+					look(y.X, d+1)
+					look(y.Y, d+1)
+				case *ssa.Phi:
+					for _, e := range y.Edges {
+						look(e, d+1)
+					}
+				case *ssa.Call:
+					if isFunc(y.Call.StaticCallee(), "strings", "Count") {
+						fromCount = true
+					}
+				case *ssa.UnOp:
+					if f2, _ := loadedField(y); f2 == height {
+						fromSelf = true
+					}
+				}
+			}
+			look(x.Val, 0)
+			switch {
+			case fromCount:
+				b[4] = 'c'
+			case fromSelf:
+			default:
+				b[4] = 'o'
+			}
 		}
 		if strF != nil && f == strF {
 			b[3] = 'n'
@@ -830,7 +867,7 @@ func c18MetricsAssigned(c *Ctx, update *ssa.Function, width, height *types.Var) 
 			if e {
 				b[3] = 'e'
 			} else {
-				b[3] = 'n'
+				b[3] = 'x' // known not to be empty
 			}
 			return string(b)
 		}
@@ -843,15 +880,25 @@ func c18MetricsAssigned(c *Ctx, update *ssa.Function, width, height *types.Var) 
 		return st, st
 	}
 	w.onReturn = func(ret *ssa.Return, st string) { outs = append(outs, out{ret, st}) }
-	w.run(update, "nnnn")
+	w.run(update, "nnnnn")
 	bad := map[*ssa.Return]string{}
 	zeroBad := map[*ssa.Return]bool{}
+	countBad := map[*ssa.Return]bool{}
 	for _, o := range outs {
 		if o.st[:2] != "yy" {
 			bad[o.ret] = fmt.Sprintf("a path returns without assigning width: %v, height: %v", o.st[0] != 'y', o.st[1] != 'y')
 		}
 		if o.st[2] == 'z' && o.st[3] != 'e' {
 			zeroBad[o.ret] = true
+		}
+		if o.st[4] == 'c' && o.st[3] != 'x' {
+			countBad[o.ret] = true
+		}
+	}
+	if linesDropsTrailing {
+		for i, ret := range returnsOf(update) {
+			r.Check("R18.2", FuncName(update), fmt.Sprintf("return #%d: the count formula gives the height only of a text known not to be empty", i+1), ret.Pos(), !countBad[ret],
+				"1 + Count(text, sep) is 1 for the empty text, for which the splitter yields no line at all (its one empty piece is the trailing one it drops): height and number of lines disagree")
 		}
 	}
 	for i, ret := range returnsOf(update) {
